@@ -7,11 +7,36 @@ allocation are compared with (a) a byte-level reference written from the propert
 "violation") and (b) the Coq model C16/Model.v (decides "model mismatch").  ffi.offsetof / addressof with
 integer arguments are checked separately in forked children (a crash is an outcome).
 """
+import os
 import struct
 
 from lib import vlib
+from props import c16_regen
 
 ID = "C16"
+
+
+def regen(ctx):
+    path = os.path.join(vlib.COQ, "C16", "Gen.v")
+    try:
+        src = open(os.path.join(vlib.REPO, "src", "c", "_cffi_backend.c")).read()
+        text = c16_regen.render(c16_regen.extract(src))
+    except (c16_regen.RegenError, OSError) as e:
+        ctx.translator("C16/Gen.v", "fallback: %s" % e)
+        text = None
+    old = open(path).read() if os.path.exists(path) else None
+    if text is not None:
+        if old == text:
+            ctx.translator("C16/Gen.v", "unchanged")
+        else:
+            with vlib.CoqLock():
+                with open(path, "w") as f:
+                    f.write(text)
+            ctx.translator("C16/Gen.v", "regenerated")
+    # the model is evaluated through the .vo files (also by --replay, which skips the proof re-check)
+    vo = os.path.join(vlib.COQ, "C16", "Model.vo")
+    if not os.path.exists(vo) or os.path.getmtime(vo) < os.path.getmtime(path):
+        vlib.coq_make(["C16/Model.vo"])
 
 # (ctype, size, category)
 ITEMS = [("int8_t", 1, "s"), ("uint8_t", 1, "u"), ("int16_t", 2, "s"), ("uint16_t", 2, "u"), ("int32_t", 4, "s"),
@@ -429,6 +454,8 @@ def eval_seq(ctx, c, r, coqcases, owner):
         # ---- the property predicate on the implementation
         g = got[:4] if got[0] == "cd" else got
         e = exp[:2] if exp[0] == "bytes" else exp
+        if e == ["err", "IndexError!"]:
+            e = ["err", "IndexError"]
         if g != e:
             what = "%r on view %d: implementation gives %r, the C model requires %r" % (op, op[1], got, exp)
         if memexp[0] == "exact":
@@ -524,6 +551,9 @@ def evaluate(ctx, cases):
         ctx.count(max(1, len(c.get("ops", []))))
         if "error" in r:
             ctx.violation(c, "harness could not run the case: " + r["error"])
+            continue
+        if "crash" in r:
+            ctx.violation(c, "the interpreter died with signal %s while running this operation sequence" % r["crash"])
             continue
         if c["kind"] == "static":
             eval_static(ctx, c, r, statics, None)
